@@ -1884,3 +1884,8 @@ MA('C15', 'nearest neighbour gathers from the values flattened in memory order',
    'return self.values[idx_res]',
    "return np.take(self.values.ravel(order='K'), np.ravel_multi_index(idx_res, self.values.shape))",
    'R1L')
+MA('C03', 'operator + vector adds the vector in place to the out-of-place result',
+   'odl/operator/operator.py', 'OperatorVectorSum._call',
+   'return self.operator(x) + self.vector',
+   'out = self.operator(x)\nout += self.vector\nreturn out',
+   'RealPart[R] + vector')
